@@ -131,6 +131,91 @@ func implIntRead(w int, bs []byte) ires {
 	})
 }
 
+// implBuiltIntRead: the same strings through the codec the builder makes for a record field
+// of schema "int" or "long" over a Go field of the given width — the pairing a caller's own
+// schema produces (the exported Int16/32/64Codec values above are only one way to get a reader).
+type c17Dest16 struct {
+	Pre  uint64  `json:"-"`
+	V    int16   `json:"v"`
+	Pad  [6]byte `json:"-"`
+	Post uint64  `json:"-"`
+}
+type c17Dest32 struct {
+	Pre  uint64  `json:"-"`
+	V    int32   `json:"v"`
+	Pad  [4]byte `json:"-"`
+	Post uint64  `json:"-"`
+}
+type c17Dest64 struct {
+	Pre  uint64 `json:"-"`
+	V    int64  `json:"v"`
+	Post uint64 `json:"-"`
+}
+type c17DestInt struct {
+	Pre  uint64 `json:"-"`
+	V    int    `json:"v"`
+	Post uint64 `json:"-"`
+}
+
+var c17Built = map[string]avro.Codec{}
+
+func implBuiltIntRead(schema string, kind string, bs []byte) ires {
+	return guard(func() ires {
+		key := schema + "/" + kind
+		codec, ok := c17Built[key]
+		if !ok {
+			s := avro.Schema{Type: "record", Object: &avro.SchemaObject{Name: "R", Fields: []avro.SchemaRecordField{{Name: "v", Type: avro.Schema{Type: schema}}}}}
+			var out any
+			switch kind {
+			case "int16":
+				out = c17Dest16{}
+			case "int32":
+				out = c17Dest32{}
+			case "int64":
+				out = c17Dest64{}
+			default:
+				out = c17DestInt{}
+			}
+			var err error
+			codec, err = s.Codec(out)
+			if err != nil {
+				return ires{Class: "panic"}
+			}
+			c17Built[key] = codec
+		}
+		r := avro.NewReadBuf(bs)
+		const pre, post = 0xA5A5A5A5A5A5A5A5, 0x5A5A5A5A5A5A5A5A
+		var v int64
+		var err error
+		intact := true
+		switch kind {
+		case "int16":
+			d := c17Dest16{Pre: pre, Post: post, Pad: [6]byte{0xEE, 0xEE, 0xEE, 0xEE, 0xEE, 0xEE}}
+			err = codec.Read(r, unsafe.Pointer(&d))
+			v, intact = int64(d.V), d.Pre == pre && d.Post == post && d.Pad == [6]byte{0xEE, 0xEE, 0xEE, 0xEE, 0xEE, 0xEE}
+		case "int32":
+			d := c17Dest32{Pre: pre, Post: post, Pad: [4]byte{0xEE, 0xEE, 0xEE, 0xEE}}
+			err = codec.Read(r, unsafe.Pointer(&d))
+			v, intact = int64(d.V), d.Pre == pre && d.Post == post && d.Pad == [4]byte{0xEE, 0xEE, 0xEE, 0xEE}
+		case "int64":
+			d := c17Dest64{Pre: pre, Post: post}
+			err = codec.Read(r, unsafe.Pointer(&d))
+			v, intact = d.V, d.Pre == pre && d.Post == post
+		default:
+			d := c17DestInt{Pre: pre, Post: post}
+			err = codec.Read(r, unsafe.Pointer(&d))
+			v, intact = int64(d.V), d.Pre == pre && d.Post == post
+		}
+		if !intact {
+			return ires{Class: "panic"}
+		}
+		if err != nil {
+			return ires{Class: "err"}
+		}
+		return ires{"ok", v, r.Len()}
+	})
+}
+
 func implIntWrite(w int, v int64) []byte {
 	wb := avro.NewWriteBuf(nil)
 	switch w {
@@ -412,6 +497,29 @@ func runC17(r *Run) {
 				} else {
 					r.Count(fmt.Sprintf("intread%d/toobig", w))
 				}
+			}
+		}
+		// the readers the builder pairs with the schemas "int" and "long" (a caller's own schema may say
+		// "int" over any integer field): same width rule, judged directly
+		for _, sch := range []string{"int", "long"} {
+			for _, kw := range []struct {
+				kind string
+				w    int
+			}{{"int16", 16}, {"int32", 32}, {"int64", 64}, {"int", 64}} {
+				gi := implBuiltIntRead(sch, kw.kind, bs)
+				w := kw.w
+				fits := class == 0 && v >= -(int64(1)<<uint(w-1)) && v <= (int64(1)<<uint(w-1))-1
+				what := fmt.Sprintf("schema %q into a Go %s field", sch, kw.kind)
+				d := map[string]any{"kind": "built-intread", "schema": sch, "go": kw.kind, "bytes": hexs(bs)}
+				switch {
+				case gi.Class == "panic":
+					r.Fail(-1, "int-read-store", fmt.Sprintf("%s: reading %x panicked, could not be built, or stored outside its %d-byte destination", what, bs, w/8), d)
+				case fits && (gi.Class != "ok" || gi.V != v || gi.Rem != len(bs)-used):
+					r.Fail(-1, "int-read", fmt.Sprintf("%s: reading %x = %+v, want %d", what, bs, gi, v), d)
+				case !fits && gi.Class != "err":
+					r.Fail(-1, "int-read-truncates", fmt.Sprintf("%s: reading %x = %+v but the value does not fit / is malformed", what, bs, gi), d)
+				}
+				r.Count("built-intread/" + sch + "/" + kw.kind)
 			}
 		}
 		gs := implIntSkip(bs)
